@@ -333,8 +333,9 @@ ReplSx == <<"%", "x">>
 ReplSe == <<"x", "%">>
 (* gsub variants: <<kind, n, strict>>; n = -2: not given; strict = FALSE: that such a replacement string is an *)
 (* error is the reference implementation's choice, the manual does not say.  full: the long battery.          *)
+ReplEmpty == <<>>        \* every match is deleted: the result may be the empty string
 GsubVariants(full) ==
-  << <<<<"str", ReplS0>>, -2, TRUE>>, <<<<"str", ReplS1>>, -2, TRUE>>, <<<<"str", ReplS0>>, 1, TRUE>> >>
+  << <<<<"str", ReplS0>>, -2, TRUE>>, <<<<"str", ReplS1>>, -2, TRUE>>, <<<<"str", ReplS0>>, 1, TRUE>>, <<<<"str", ReplEmpty>>, -2, TRUE>> >>
   \o (IF full
       THEN << <<<<"fn">>, -2, TRUE>>, <<<<"tbl">>, -2, TRUE>>, <<<<"str", ReplS0>>, 0, TRUE>>, <<<<"str", ReplS0>>, 2, TRUE>>,
               <<<<"str", ReplS0>>, -1, TRUE>>, <<<<"str", ReplS2>>, -2, FALSE>>, <<<<"str", ReplSx>>, -2, FALSE>>,
